@@ -59,6 +59,8 @@ def handle (op real : String) : Verdict := Id.run do
   let model := " ".intercalate outs ++ s!" fwd={fwd}"
   let sig := s!"m{max}-{(outs.take 1)}"
   let realFwd := ((realToks.find? (·.startsWith "fwd=")).map fun t => ((t.drop 4).toString.toNat?.getD 0)).getD 0
+  if let some b := realToks.find? (·.startsWith "bad=") then
+    return { kind := "spec", sig, key := "C13:forwarded-frame-undecodable-at-backend", detail := s!"a forwarded frame reached a backend connection that cannot decode it ({b}; wrong compression / version for that connection): {op} -> {real}" }
   match specBad with
   | some w => return { kind := "spec", sig, key := "C13:" ++ (if w.startsWith "STARTUP" then "startup-two-frames" else "gate"), detail := w }
   | none =>
